@@ -27,8 +27,8 @@ def load():
     return prog
 
 
-def scalar_has_stale(v):
-    """STALE marker anywhere inside a scalar/vector value"""
+def scalar_has_stale(v, kinds=("STALE",)):
+    """STALE marker anywhere inside a scalar/vector value (kinds: which scalar markers count)"""
     stack = [v]
     seen = set()
     while stack:
@@ -37,14 +37,15 @@ def scalar_has_stale(v):
             if has_kind(x, ("stale", "clob")):
                 return True
         elif isinstance(x, tuple):
-            if len(x) >= 2 and x[0] == "s" and x[1] in ("STALE", "UNDEF", "OOB"):
+            if len(x) >= 2 and x[0] == "s" and x[1] in kinds:
                 return True
             stack.extend(x)
         elif isinstance(x, drv.Pair):
             stack.append(x.first.get())
             stack.append(x.second.get())
         elif isinstance(x, Undef):
-            return True
+            if "UNDEF" in kinds:
+                return True
     return False
 
 
@@ -156,8 +157,9 @@ def scenario_reuse(prog, mode, first_choices_all_true=True):
     # first: which members can the first solve write in this mode (any path)?
     written = set()
     firsts = []
-    for dom in drv.run_paths(prog, mode, lambda d, it: (run_setup(d, it), setattr(d, "field_writes", set()),
-                                                         it.call_function(prog.fn("GMGPolar::solve"), d.gm, []))):
+    mode1 = dict(mode, max_iterations=max(2, mode.get("max_iterations", 1)))
+    for dom in drv.run_paths(prog, mode1, lambda d, it: (run_setup(d, it), setattr(d, "field_writes", set()),
+                                                          it.call_function(prog.fn("GMGPolar::solve"), d.gm, []))):
         written |= dom.field_writes
         firsts.append(dom)
     # second solve: replay the first along its first path (any path leaves the same *kinds* of history), then mark
@@ -166,10 +168,14 @@ def scenario_reuse(prog, mode, first_choices_all_true=True):
     def body(dom, it):
         run_setup(dom, it)
         dom.field_writes = set()
-        try:
-            it.call_function(prog.fn("GMGPolar::solve"), dom.gm, [])
-        except ThrowEx:
-            raise
+        # first solve: history-rich (two iterations, never converged), not forked; which members it MAY write
+        # comes from the full exploration above
+        dom.policy = False
+        dom.gm.f["max_iterations_"].set(max(2, mode.get("max_iterations", 1)))
+        it.call_function(prog.fn("GMGPolar::solve"), dom.gm, [])
+        dom.policy = None
+        dom.nofork_pred = scalar_has_stale
+        dom.gm.f["max_iterations_"].set(mode.get("max_iterations", 1))
         n_first[0] = dom.n_choice
         mark_stale_after_solve(dom, written)
         dom.events_first = list(dom.events)
